@@ -27,7 +27,9 @@ func init() {
 		Rules: []ruleFn{c13R1, c13R2, c13R3, func(c *Ctx, r *Report) { subscriptionFeedRule(c, r, "C13-R4") }, c13R5,
 			lockRuleFor("C13-R6", 15, []string{}, []string{"api.(*DatabaseAPI).Handle", "api.MarshalRecord"}, map[string]string{}),
 			func(c *Ctx, r *Report) { deletedFirstRule(c, r, "C13-R7") },
-			repoErrRuleFor("C13-R8", 15, func(c *Ctx, fn *ssa.Function) bool { return short(fn.Pkg.Pkg.Path()) == "api" && inFile(c, fn, "api/database.go") }, map[string]string{"api.(*DatabaseAPI).processSub / database.Subscription.Cancel": "cancel at API shutdown is best effort; the feed is abandoned either way", "api.(*DatabaseWebsocketAPI).handler$1 / api.DatabaseWebsocketAPI.shutdown": "shutdown only returns the error it was given or a stop sentinel for the worker", "api.(*DatabaseWebsocketAPI).writer$1 / api.DatabaseWebsocketAPI.shutdown": "shutdown only returns the error it was given or a stop sentinel for the worker"}),
+			repoErrRuleFor("C13-R8", 15, func(c *Ctx, fn *ssa.Function) bool {
+				return short(fn.Pkg.Pkg.Path()) == "api" && inFile(c, fn, "api/database.go")
+			}, map[string]string{"api.(*DatabaseAPI).processSub / database.Subscription.Cancel": "cancel at API shutdown is best effort; the feed is abandoned either way", "api.(*DatabaseWebsocketAPI).handler$1 / api.DatabaseWebsocketAPI.shutdown": "shutdown only returns the error it was given or a stop sentinel for the worker", "api.(*DatabaseWebsocketAPI).writer$1 / api.DatabaseWebsocketAPI.shutdown": "shutdown only returns the error it was given or a stop sentinel for the worker"}),
 			c13R9},
 	})
 }
